@@ -48,6 +48,16 @@ def check(run, driver):
         "(matrices) / at least 3 points (polylines); distinct by content hash"
     )
     thorough = run.tier == "thorough"
+    # ---- translator: Compute_TPR_FPR is regenerated from the CURRENT source as a Lean function of (n, flattened entry pairs)
+    #      and proved equal to the model's `tprFpr` (the function all C17 theorems are about) for ALL n and ALL matrices
+    import gen_tables
+    try:
+        src = gen_tables.tprfpr_obligation_source()
+        ok, out = gen_tables.obligation_standalone("ObC17", src)
+        run.oblige("ObC17 Compute_TPR_FPR regenerated from the source = model's tprFpr, for all n and all entry lists (rfl / field arithmetic)", ok, out if not ok else "")
+        run.extra["translator"] = "Compute_TPR_FPR translated (straight-line NumPy subset -> Lean over Rat)"
+    except gen_tables.Untranslatable as e:
+        run.extra["translator"] = f"UNTRANSLATABLE ({e}) -- Compute_TPR_FPR is outside the straight-line subset; the obligation is not established on this run and the property is decided by the exhaustive/sampled comparison with the definition and the model alone"
     cases = []  # (suite, A, B, dtype)
     for n in (1, 2, 3):
         m = n * (n - 1)
